@@ -126,6 +126,26 @@ theorem alias_resize_every_index (r : Raw.RArr) (a : AState) (h : Raw.Rel r a) (
     rw [e2] at g
     simp [obsA, Spec.resize] at g
 
+/-- `a.append(&a[i], n)` — the pointer overload `append(const T* values, usize size)` with `values` pointing INTO the array —
+    on the cell model for EVERY sub-range `i + n ≤ size`, every size and capacity: the pointer is followed into the new
+    block (`values = reserve(oldSize + size, values)`), the `n` source cells `i … i+n-1` are all constructed cells of that
+    block (none of them is a cell the loop itself fills), and the array afterwards holds `elems ++ elems[i … i+n-1]`. -/
+theorem alias_append_every_range (r : Raw.RArr) (a : AState) (h : Raw.Rel r a) (i n : Nat) (hin : i + n ≤ a.size) :
+    ∃ r' ra, Raw.appendSub r i n = some r' ∧ a.appendSub i n = some ra ∧ Raw.Rel r' ra.st ∧
+      ra.st.elems = a.elems ++ (a.elems.drop i).take n := by
+  have hin' : i + n ≤ a.elems.length := hin
+  have good := AState.appendSub_good a (Raw.rel_ok h) i n
+  simp only [hin', if_true] at good
+  rcases Raw.appendSub_rel r a h i n with ⟨r', ra, e1, e2, e3⟩ | ⟨_, e2⟩
+  · refine ⟨r', ra, e1, e2, e3, ?_⟩
+    have g := good.1
+    rw [e2] at g
+    simp only [obsA, Option.map_some, Spec.const, Option.some.injEq, Prod.mk.injEq] at g
+    exact g.1
+  · have g := good.1
+    rw [e2] at g
+    simp [obsA, Spec.const] at g
+
 /-! ### Non-vacuity -/
 
 /-- self-insertion at the inner position 1 of the chain 5, 7, 9 (heap with blocks of 4 items) -/
